@@ -16,6 +16,19 @@ CHECKS = {
     ),
 }
 
+CHECKS["C04"] = (
+    "Coq induction over fuel and token lists: any sequence of trailing closer tokens is absorbed by parse (theorem for all programs, unbounded nesting) + lexer state-machine lemma for unterminated strings; lexer/parser model-vs-implementation correspondence evaluated in Coq",
+    "Machine-checked for every token list and every sequence of trailing closer tokens: if the closed program parses, the truncated one parses to the same tree (C04_tokens; literally equal when no raw function-call name contains a closer, C04_tokens_exact), an unterminated string/compressed literal lexes as if closed, and closers after code lex as closer tokens (C04_source, C04_source_string). The models' constants and token-kind guards are regenerated from parse.py/lexer.py on every run.",
+    "Trusted: coqc kernel; translator; that the hand-written lexer/parser models equal lexer.tokenise / parse.parse is tested (exhaustive token strings <= 4/5 over 14 structural symbols, generated programs and all their truncations, incl. error outcomes), not proved.",
+    "DESIGN.md 7/C04",
+)
+CHECKS["C03"] = (
+    "Coq two-sided simulation of parse on token lists that differ only in literal payloads (induction, unbounded) + per-literal-kind lexer lemmas; proof obligation on the token-kind guard flags read from parse.py's AST; correspondence evaluated in Coq",
+    "Machine-checked: all nine syntax decisions of parse.py carry a token-kind guard (regenerated flags, C03_guards_in_source); a literal token is always a plain statement and always appended to the current branch; branch grouping is independent of literal payloads with no side condition; the whole parse tree (structures, branches, operands, names, errors) is independent of literal payloads when no literal sits in a name/parameter/arity branch; per literal kind (delimited, escaped character, two-character string, code-page number, comment) the lexer yields the payload as one token's value for payloads of any length.",
+    "Trusted: coqc kernel; translator (guard flags, constants); model = implementation is tested by correspondence (payload substitution sources, generated programs), not proved. Back-quoted payloads containing backslash/delimiter are escape sequences (C06).",
+    "DESIGN.md 7/C03",
+)
+
 NOT_YET = {}
 
 def main():
